@@ -103,3 +103,18 @@ CLAIMED["C19"] = dict(category=_MC,
          "is_authorized_json and the Rust API; TLC folds the machine over each recorded history.",
     note="complete for the 2-name cache at the design level; conformance on a seeded sample (quick) or all pairs (thorough) plus random histories over 4 names. "
          "validate/check-parse/convert/format FFI entry points and the CLI are not driven yet.")
+ENGINES[0]["serves_properties"] += ["C07", "C18"]
+CLAIMED["C07"] = dict(category=_MC,
+    text="CedarExt.tla specifies the four extension types: acceptors as explicit grammars over code points (decimal, IPv4/IPv6 with prefixes, datetime with calendar validity and "
+         "offsets, duration with ordered units) and every operation on the represented value through exact Int64 arithmetic. TLC composes constructor strings from per-type part "
+         "tables (valid and near-miss) and operation cases over boundary pools, checks model-level laws (toDate+toTime identity, isInRange reflexive/monotone, parse(print(v)) = v, "
+         "offset/durationSince inverse), and every case is evaluated by the real code through the five arrival paths of the eval family and re-judged by TLC (values observed through "
+         "operations and through cedar's own constructor-call representation).",
+    note="bounded by the part tables / boundary pools of MC_Ext.tla plus a mutation-based random driver; the entity-JSON __extn arrival path is not driven; non-ASCII digits are out of scope.")
+CLAIMED["C18"] = dict(category=_MC,
+    text="For a literal symbolic environment the verification conditions are ground; Trace_Symcc.tla requires every assert to have reduced to a constant and 'asserts unsatisfiable' to hold "
+         "exactly when the reference semantics says the property holds on that environment (never-errors, always/never-matches per policy; always-allows/denies, implies, equivalent, "
+         "disjoint per policy-set pair). TLC generates 915 (policy set, second set) cases over Sc2; each is compiled with compile_with_custom_symenv against SymEnv::from_concrete_env "
+         "of 10 conformant environments.",
+    note="no solver involved (cvc5 absent): literal environments only. One known finding (C18-dangling-reference, see known_findings.json): record-less entities get default data in the literal "
+         "SymEnv; instances are recognised in the trace spec and reported as KNOWN-FINDING, every other disagreement is a violation.")
